@@ -1029,6 +1029,9 @@ fn run_c13_verbatim_real(seed: u64, rep: &mut RealReport) {
                     hsh = hsh.wrapping_mul(0x100000001b3);
                 }
                 let path = format!("{}/replays/C13-expression-not-run-verbatim-{:08x}.json", crate::out_dir(), hsh as u32);
+                if rep.violation_replays.contains(&path) {
+                    continue;
+                }
                 if std::fs::write(&path, text).is_ok() {
                     rep.violation_replays.push(path);
                     reported += 1;
